@@ -2,7 +2,9 @@
 
 Oracle: the key set of every shape recomputed from the abstract triples with
 exact rational arithmetic (pipespec.check_keys)."""
-from vp import pipeprops, pipespec, pipe
+from vp import pipeprops, pipespec, pipe, pipemap
+
+pipemap.install()      # shape-map runs (cfg["smap"]) go through Model.RunMap / Shaper(shape_map_raw=...)
 
 
 class Spec(pipeprops.PropSpec):
@@ -15,13 +17,15 @@ class Spec(pipeprops.PropSpec):
             "instances and some non-typing triple")
 
     def gen_cases(self, tier, rnd):
-        return pipeprops.gen_basic(tier, rnd, 2500, 40000)
+        return pipeprops.gen_basic(tier, rnd, 2500, 40000) + pipemap.stream(tier, rnd, 1000, 10000, only_iri=True)
 
     def oracle(self, case, impl):
         ts, cfg = case["runs"][0]
         if impl[0][0] != "ok":
             return [], 0
         doc = pipe.canon(impl[0][1])
+        if pipemap.is_map(cfg):
+            return pipemap.check_keys_map(ts, cfg, doc)
         return pipespec.check_keys(ts, cfg, doc)
 
     def domain_note(self):
